@@ -16,6 +16,7 @@ package redis
 
 import (
 	"errors"
+	"math"
 	"strconv"
 	"strings"
 	"time"
@@ -135,6 +136,9 @@ func (server *Server) registerCoreExecutors() {
 		if err != nil {
 			return nil, err
 		}
+		if int64(ttl) > math.MaxInt64/int64(time.Second) || int64(ttl) < -(math.MaxInt64/int64(time.Second)) {
+			return nil, newInvalidArgumentError(cmd, "ttl", errors.New("expire is out of range"))
+		}
 		ttlTime := time.Now().Add(time.Duration(ttl) * time.Second)
 		opt, err := nextExpireArgument(cmd, ttlTime, args)
 		if err != nil {
@@ -151,6 +155,9 @@ func (server *Server) registerCoreExecutors() {
 		ttl, err := nextIntegerArgument(cmd, "ttl", args)
 		if err != nil {
 			return nil, err
+		}
+		if int64(ttl) > math.MaxInt64/1000 || int64(ttl) < -(math.MaxInt64/1000) {
+			return nil, newInvalidArgumentError(cmd, "ttl", errors.New("expire is out of range"))
 		}
 		ttlTime := time.Unix(int64(ttl), 0)
 		opt, err := nextExpireArgument(cmd, ttlTime, args)
